@@ -98,6 +98,17 @@ func (d *Pegnetd) GetPegNetRateAverages(ctx context.Context, height uint32) (Avg
 	return averages // Return the rates we found.
 }
 
+// GetPegNetRateAveragesForAPI computes the averages at a height for an API
+// request. API handlers run on their own goroutines: they must not read or
+// rewrite the rolling window the sync loop keeps between blocks
+// (LastAverages*), because what that window holds decides how the next
+// conversions are priced. The computation is done on a scratch node that
+// only shares the database.
+func (d *Pegnetd) GetPegNetRateAveragesForAPI(ctx context.Context, height uint32) (Avg interface{}) {
+	scratch := &Pegnetd{Pegnet: d.Pegnet}
+	return scratch.GetPegNetRateAverages(ctx, height)
+}
+
 func numberMissing(dataset []uint64) (numZeros uint64) {
 	for _, v := range dataset {
 		if v == 0 {
